@@ -167,4 +167,546 @@ theorem unionConstraintTrees_eq (ntree : Nat) (rows : List (Option (List Int))) 
     rw [flexFold_eq]
     cases runMerges p (flexesPairs flexes) <;> simp
 
+
+/-! ### validity of the schedule for well-formed rows -/
+
+/-- Tree lists that `treeNext` can produce for one constraint on `n` trees: one dynamic tree; two trees of
+    which at most one is static (special-cased contact / connect / weld); or the dynamic trees found by the
+    Jacobian scan. -/
+def RowOk (n : Nat) (ts : List Int) : Prop :=
+  (∀ t ∈ ts, -1 ≤ t ∧ t < (n : Int)) ∧
+  ((∃ t, ts = [t] ∧ 0 ≤ t) ∨ (∃ a b, ts = [a, b] ∧ ¬ (a = -1 ∧ b = -1)) ∨
+   (2 ≤ ts.length ∧ ∀ t ∈ ts, 0 ≤ t))
+
+theorem edgeOf_nonneg {a b : Int} (ha : 0 ≤ a) (hb : 0 ≤ b) : edgeOf (a, b) = (a.toNat, b.toNat) := by
+  unfold edgeOf
+  have h1 : ¬ a = -1 := by omega
+  have h2 : ¬ b = -1 := by omega
+  simp [h1, h2]
+
+theorem chain_ok {n : Nat} (hd : Int) (ts : List Int) (h : ∀ t ∈ hd :: ts, 0 ≤ t ∧ t < (n : Int)) :
+    ∀ m ∈ chainPairs hd ts, MergeOk n m := by
+  induction ts generalizing hd with
+  | nil => intro m hm; simp [chainPairs] at hm
+  | cons t2 rest ih =>
+    intro m hm
+    simp only [chainPairs, List.mem_cons] at hm
+    rcases hm with rfl | hm
+    · have h1 := h hd (by simp)
+      have h2 := h t2 (by simp)
+      refine ⟨by simp; omega, by simp; omega, by simp; omega, by simp; omega, by simp; omega⟩
+    · exact ih t2 (fun t ht => h t (List.mem_cons_of_mem _ ht)) m hm
+
+theorem chain_conn (hd : Int) (ts : List Int) (h : ∀ t ∈ hd :: ts, 0 ≤ t) :
+    ∀ t ∈ hd :: ts, Conn ((chainPairs hd ts).map edgeOf) hd.toNat t.toNat := by
+  induction ts generalizing hd with
+  | nil => intro t ht; simp at ht; subst ht; exact .refl _
+  | cons t2 rest ih =>
+    intro t ht
+    simp only [List.mem_cons] at ht
+    rcases ht with rfl | ht
+    · exact .refl _
+    · have h1 := h hd (by simp)
+      have h2 := h t2 (by simp)
+      have e : Conn ((chainPairs hd (t2 :: rest)).map edgeOf) hd.toNat t2.toNat := by
+        apply Conn.edge
+        simp only [chainPairs, List.map_cons, List.mem_cons]
+        left; rw [edgeOf_nonneg h1 h2]
+      refine e.trans ?_
+      have := ih t2 (fun t ht => h t (List.mem_cons_of_mem _ ht)) t (by simpa using ht)
+      exact this.mono (fun e he => by simp only [chainPairs, List.map_cons]; exact List.mem_cons_of_mem _ he)
+
+theorem chain_touched (hd : Int) (ts : List Int) (hne : ts ≠ []) (h : ∀ t ∈ hd :: ts, 0 ≤ t) :
+    ∀ t ∈ hd :: ts, Touched ((chainPairs hd ts).map edgeOf) t.toNat := by
+  induction ts generalizing hd with
+  | nil => exact absurd rfl hne
+  | cons t2 rest ih =>
+    intro t ht
+    have h1 := h hd (by simp)
+    have h2 := h t2 (by simp)
+    simp only [List.mem_cons] at ht
+    rcases ht with rfl | rfl | ht
+    · exact ⟨(t.toNat, t2.toNat), by simp [chainPairs, edgeOf_nonneg h1 h2], Or.inl rfl⟩
+    · exact ⟨(hd.toNat, t.toNat), by simp [chainPairs, edgeOf_nonneg h1 h2], Or.inr rfl⟩
+    · cases rest with
+      | nil => simp at ht
+      | cons t3 rest' =>
+        obtain ⟨e, he, hu⟩ := ih t2 (by simp) (fun t ht => h t (List.mem_cons_of_mem _ ht)) t
+          (List.mem_cons_of_mem _ ht)
+        exact ⟨e, by simp only [chainPairs, List.map_cons] at he ⊢; exact List.mem_cons_of_mem _ he, hu⟩
+
+theorem RowOk.ne_nil {n : Nat} {ts : List Int} (h : RowOk n ts) : ts ≠ [] := by
+  rcases h.2 with ⟨t, rfl, _⟩ | ⟨a, b, rfl, _⟩ | ⟨h2, _⟩
+  · simp
+  · simp
+  · intro e; subst e; simp at h2
+
+theorem RowOk.rowTree_spec {n : Nat} {ts : List Int} (h : RowOk n ts) : 0 ≤ rowTree ts ∧ rowTree ts ∈ ts := by
+  rcases h.2 with ⟨t, rfl, ht⟩ | ⟨a, b, rfl, hab⟩ | ⟨h2, hall⟩
+  · simp [rowTree, ht]
+  · have ha := h.1 a (by simp)
+    have hb := h.1 b (by simp)
+    simp only [rowTree]
+    split
+    · simp; omega
+    · simp; omega
+  · match ts, h2 with
+    | t1 :: t2 :: rest, _ =>
+      have h1 := hall t1 (by simp)
+      simp [rowTree, h1]
+
+theorem RowOk.pairs_ok {n : Nat} {ts : List Int} (h : RowOk n ts) : ∀ m ∈ rowPairs ts, MergeOk n m := by
+  rcases h.2 with ⟨t, rfl, ht⟩ | ⟨a, b, rfl, hab⟩ | ⟨h2, hall⟩
+  · intro m hm
+    simp only [rowPairs, List.mem_singleton] at hm
+    subst hm
+    have := h.1 t (by simp)
+    refine ⟨by simp; omega, by simp; omega, by simp, by simp; omega, by simp; omega⟩
+  · intro m hm
+    simp only [rowPairs, chainPairs, List.mem_singleton] at hm
+    subst hm
+    have ha := h.1 a (by simp)
+    have hb := h.1 b (by simp)
+    exact ⟨ha.1, ha.2, hb.1, hb.2, hab⟩
+  · match ts, h2 with
+    | t1 :: t2 :: rest, _ =>
+      simp only [rowPairs]
+      exact chain_ok t1 (t2 :: rest) (fun t ht => ⟨hall t ht, (h.1 t ht).2⟩)
+
+theorem RowOk.conn {n : Nat} {ts : List Int} (h : RowOk n ts) :
+    ∀ t ∈ ts, ∀ t' ∈ ts, 0 ≤ t → 0 ≤ t' → Conn ((rowPairs ts).map edgeOf) t.toNat t'.toNat := by
+  rcases h.2 with ⟨t0, rfl, ht⟩ | ⟨a, b, rfl, hab⟩ | ⟨h2, hall⟩
+  · intro t ht t' ht' _ _
+    simp only [List.mem_singleton] at ht ht'
+    subst ht ht'; exact .refl _
+  · intro t ht t' ht' h0 h0'
+    simp only [List.mem_cons, List.not_mem_nil, or_false] at ht ht'
+    rcases ht with rfl | rfl <;> rcases ht' with rfl | rfl
+    · exact .refl _
+    · apply Conn.edge; simp [rowPairs, chainPairs, edgeOf_nonneg h0 h0']
+    · apply Conn.symm; apply Conn.edge; simp [rowPairs, chainPairs, edgeOf_nonneg h0' h0]
+    · exact .refl _
+  · match ts, h2 with
+    | t1 :: t2 :: rest, _ =>
+      intro t ht t' ht' _ _
+      simp only [rowPairs]
+      exact (chain_conn t1 (t2 :: rest) hall t ht).symm.trans (chain_conn t1 (t2 :: rest) hall t' ht')
+
+theorem RowOk.touched {n : Nat} {ts : List Int} (h : RowOk n ts) :
+    ∀ t ∈ ts, 0 ≤ t → Touched ((rowPairs ts).map edgeOf) t.toNat := by
+  rcases h.2 with ⟨t0, rfl, ht⟩ | ⟨a, b, rfl, hab⟩ | ⟨h2, hall⟩
+  · intro t ht _
+    simp only [List.mem_singleton] at ht
+    subst ht
+    refine ⟨edgeOf (t, -1), by simp [rowPairs], Or.inl ?_⟩
+    have : ¬ t = -1 := by omega
+    simp [edgeOf, this]
+  · intro t ht h0
+    refine ⟨edgeOf (a, b), by simp [rowPairs, chainPairs], ?_⟩
+    simp only [List.mem_cons, List.not_mem_nil, or_false] at ht
+    have ha := h.1 a (by simp)
+    have hb := h.1 b (by simp)
+    unfold edgeOf
+    rcases ht with rfl | rfl
+    · left
+      have : ¬ t = -1 := by omega
+      simp [this]
+    · right
+      have : ¬ t = -1 := by omega
+      simp [this]
+  · match ts, h2 with
+    | t1 :: t2 :: rest, _ =>
+      intro t ht _
+      simp only [rowPairs]
+      exact chain_touched t1 (t2 :: rest) (by simp) hall t ht
+
+theorem flexPairs_ok {n : Nat} (t1 : Int) (f : List (Int × Bool)) (h1 : t1 < 0 ∨ t1 < (n : Int))
+    (hf : ∀ x ∈ f, x.1 < (n : Int)) : ∀ m ∈ flexPairs t1 f, MergeOk n m := by
+  induction f generalizing t1 with
+  | nil => intro m hm; simp [flexPairs] at hm
+  | cons x rest ih =>
+    obtain ⟨t2, awake⟩ := x
+    have h2 : t2 < (n : Int) := hf (t2, awake) (by simp)
+    have hrest : ∀ x ∈ rest, x.1 < (n : Int) := fun x hx => hf x (List.mem_cons_of_mem _ hx)
+    rw [flexPairs]
+    split
+    · exact ih t1 h1 hrest
+    · next hc =>
+      split
+      · exact ih t2 (Or.inr h2) hrest
+      · next hc' =>
+        intro m hm
+        simp only [List.mem_cons] at hm
+        rcases hm with rfl | hm
+        · refine ⟨by simp; omega, by simp; omega, by simp; omega, by simp; omega, by simp; omega⟩
+        · exact ih t1 h1 hrest m hm
+
+theorem mem_rowsPairs {rows : List (Option (List Int))} {ts : List Int} (h : some ts ∈ rows) :
+    ∀ m ∈ rowPairs ts, m ∈ rowsPairs rows := by
+  induction rows with
+  | nil => simp at h
+  | cons r rest ih =>
+    intro m hm
+    cases r with
+    | none =>
+      simp only [List.mem_cons, reduceCtorEq, false_or] at h
+      simp only [rowsPairs]; exact ih h m hm
+    | some ts' =>
+      simp only [List.mem_cons, Option.some.injEq] at h
+      simp only [rowsPairs, List.mem_append]
+      rcases h with rfl | h
+      · exact Or.inl hm
+      · exact Or.inr (ih h m hm)
+
+theorem rowsPairs_ok {n : Nat} {rows : List (Option (List Int))} (h : ∀ ts, some ts ∈ rows → RowOk n ts) :
+    ∀ m ∈ rowsPairs rows, MergeOk n m := by
+  induction rows with
+  | nil => intro m hm; simp [rowsPairs] at hm
+  | cons r rest ih =>
+    intro m hm
+    cases r with
+    | none => exact ih (fun ts hts => h ts (List.mem_cons_of_mem _ hts)) m (by simpa [rowsPairs] using hm)
+    | some ts =>
+      simp only [rowsPairs, List.mem_append] at hm
+      rcases hm with hm | hm
+      · exact (h ts (by simp)).pairs_ok m hm
+      · exact ih (fun ts hts => h ts (List.mem_cons_of_mem _ hts)) m hm
+
+theorem flexesPairs_ok {n : Nat} {flexes : List (List (Int × Bool))}
+    (h : ∀ f ∈ flexes, ∀ x ∈ f, x.1 < (n : Int)) : ∀ m ∈ flexesPairs flexes, MergeOk n m := by
+  induction flexes with
+  | nil => intro m hm; simp [flexesPairs] at hm
+  | cons f rest ih =>
+    intro m hm
+    simp only [flexesPairs, List.mem_append] at hm
+    rcases hm with hm | hm
+    · exact flexPairs_ok (-1) f (Or.inl (by omega)) (h f (by simp)) m hm
+    · exact ih (fun f hf => h f (List.mem_cons_of_mem _ hf)) m hm
+
+theorem owners_mem {b : Bool} {rows : List (Option (List Int))} (hs : RowsShape b rows) (last : List Int) :
+    ∀ x ∈ owners last rows, (b = true ∧ x = last) ∨ some x ∈ rows := by
+  induction hs generalizing last with
+  | nil => intro x hx; simp [owners] at hx
+  | @row b ts rest _ _ _ ih =>
+    intro x hx
+    simp only [owners, List.mem_cons] at hx
+    rcases hx with rfl | hx
+    · right; simp
+    · rcases ih ts x hx with ⟨_, rfl⟩ | h
+      · right; simp
+      · right; exact List.mem_cons_of_mem _ h
+  | @same rest _ ih =>
+    intro x hx
+    simp only [owners, List.mem_cons] at hx
+    rcases hx with rfl | hx
+    · left; exact ⟨rfl, rfl⟩
+    · rcases ih last x hx with h | h
+      · left; exact h
+      · right; exact List.mem_cons_of_mem _ h
+
+theorem owners_length (last : List Int) (rows : List (Option (List Int))) : (owners last rows).length = rows.length := by
+  induction rows generalizing last with
+  | nil => rfl
+  | cons r rest ih => cases r <;> simp [owners, ih]
+
+
+/-! ### counting dofs of constrained trees -/
+
+def sumTo (g : Nat → Int) : Nat → Int
+  | 0 => 0
+  | k + 1 => sumTo g k + g k
+
+theorem activeDofs_eq_sumTo (p dofnum : Array Int) (k : Nat) :
+    activeDofs p dofnum k = sumTo (fun t => if par p t = -1 then 0 else dofnum.getD t 0) k := by
+  induction k with
+  | zero => rfl
+  | succ k ih => simp only [activeDofs, sumTo, ih]
+
+theorem sumTo_congr {g g' : Nat → Int} {k : Nat} (h : ∀ t, t < k → g t = g' t) : sumTo g k = sumTo g' k := by
+  induction k with
+  | zero => rfl
+  | succ k ih => simp only [sumTo]; rw [ih (fun t ht => h t (by omega)), h k (by omega)]
+
+theorem sumTo_add (g g' : Nat → Int) (k : Nat) : sumTo (fun t => g t + g' t) k = sumTo g k + sumTo g' k := by
+  induction k with
+  | zero => rfl
+  | succ k ih => simp only [sumTo, ih]; omega
+
+theorem sumTo_zero (k : Nat) : sumTo (fun _ => 0) k = 0 := by
+  induction k with
+  | zero => rfl
+  | succ k ih => simp only [sumTo, ih]; omega
+
+theorem sumTo_single (d : Nat) (c : Int) (k : Nat) :
+    sumTo (fun t => if t = d then c else 0) k = if d < k then c else 0 := by
+  induction k with
+  | zero => simp [sumTo]
+  | succ k ih =>
+    simp only [sumTo, ih]
+    by_cases h1 : d < k
+    · have : ¬ k = d := by omega
+      have h2 : d < k + 1 := by omega
+      simp [h1, this, h2]
+    · by_cases h2 : k = d
+      · subst h2; simp
+      · have h3 : ¬ d < k + 1 := by omega
+        simp [h1, h2, h3]
+
+theorem count_sum (act : Nat → Bool) (l : List Nat) (n : Nat) (hl : ∀ d ∈ l, d < n) :
+    sumTo (fun t => if act t then (l.count t : Int) else 0) n = (l.countP act : Int) := by
+  induction l with
+  | nil => simp [sumTo_zero]
+  | cons d l ih =>
+    have hd : d < n := hl d (by simp)
+    have hg : ∀ t, t < n → (if act t then ((d :: l).count t : Int) else 0) =
+        (if act t then (l.count t : Int) else 0) + (if t = d then (if act d then 1 else 0) else 0) := by
+      intro t _
+      rw [List.count_cons]
+      by_cases e : t = d
+      · subst e; by_cases a : act t <;> simp [a]
+      · have : (d == t) = false := by simp; exact fun h => e h.symm
+        by_cases a : act t <;> simp [a, e, this]
+    rw [sumTo_congr hg, sumTo_add, ih (fun x hx => hl x (List.mem_cons_of_mem _ hx)), sumTo_single,
+      List.countP_cons]
+    simp only [hd, ↓reduceIte]
+    by_cases a : act d <;> simp [a]
+
+/-! ### small evaluation lemmas -/
+
+theorem lookupAll_eq (tbl : Array Int) (idx : List Int) (h : ∀ i ∈ idx, 0 ≤ i ∧ i.toNat < tbl.size) :
+    lookupAll tbl idx = some (idx.map (fun i => tbl.getD i.toNat 0)) := by
+  unfold lookupAll
+  induction idx with
+  | nil => rfl
+  | cons i rest ih =>
+    have hi := h i (by simp)
+    rw [List.mapM_cons, ih (fun j hj => h j (List.mem_cons_of_mem _ hj))]
+    simp [hi.1, hi.2, Array.getD]
+
+theorem mapM_getElem?_eq (arr : Array Nat) (l : List Nat) (h : ∀ i ∈ l, i < arr.size) :
+    l.mapM (fun i => arr[i]?) = some (l.map (fun i => arr.getD i 0)) := by
+  induction l with
+  | nil => rfl
+  | cons i rest ih =>
+    have hi := h i (by simp)
+    rw [List.mapM_cons, ih (fun j hj => h j (List.mem_cons_of_mem _ hj))]
+    simp [hi, Array.getD]
+
+
+/-! ### assembly: everything `mj_island` computes -/
+
+theorem touched_mono {E E' : List (Nat × Nat)} (h : ∀ e ∈ E, e ∈ E') {u : Nat} : Touched E u → Touched E' u := by
+  rintro ⟨e, he, hu⟩; exact ⟨e, h e he, hu⟩
+
+theorem row_edges_sub {rows : List (Option (List Int))} {flexes : List (List (Int × Bool))} {ts : List Int}
+    (h : some ts ∈ rows) : ∀ e ∈ (rowPairs ts).map edgeOf, e ∈ (schedule rows flexes).map edgeOf := by
+  intro e he
+  obtain ⟨m, hm, rfl⟩ := List.mem_map.mp he
+  exact List.mem_map.mpr ⟨m, List.mem_append_left _ (mem_rowsPairs h m hm), rfl⟩
+
+/-- What `mj_island` computes (all of it), in terms of the constraint incidence it was given. -/
+structure IslandSpec (ntree : Nat) (dofTree : List Nat) (rows : List (Option (List Int)))
+    (flexes : List (List (Int × Bool))) (out : IslandOut) : Prop where
+  /-- `tree_island` is the ascending component numbering of the merge schedule -/
+  assign : AssignSpec ((schedule rows flexes).map edgeOf) ntree
+    { island := out.tree_island, parent := out.parent, nisland := out.nisland, nidof := out.nidof }
+  nisland_pos : 0 < out.nisland
+  dof_size : out.dof_island.size = dofTree.length
+  /-- every dof belongs to the island of its tree (-1 if the tree is unconstrained) -/
+  dof_eq : ∀ d (h : d < out.dof_island.size) (h' : d < dofTree.length) (h'' : dofTree[d] < out.tree_island.size),
+    out.dof_island[d] = out.tree_island[dofTree[d]]
+  nidof_eq : out.nidof = nConstrained out.dof_island.toList
+  efc_size : out.efc_island.size = rows.length
+  /-- every constraint row belongs to the island of each of its (dynamic) trees -/
+  efc_eq : ∀ i (h : i < out.efc_island.size) (ts : List Int), (owners [] rows)[i]? = some ts →
+    ∀ t ∈ ts, 0 ≤ t → ∃ h' : t.toNat < out.tree_island.size,
+      out.efc_island[i] = out.tree_island[t.toNat] ∧ 0 ≤ out.efc_island[i]
+  trees : MapsSpec out.tree_island.toList out.nisland out.trees
+  dofs : MapsSpec out.dof_island.toList out.nisland out.dofs
+  efcs : MapsSpec out.efc_island.toList out.nisland out.efcs
+  dofadr_size : out.island_dofadr.size = out.nisland
+  dofadr_eq : ∀ k (h : k < out.island_dofadr.size) (h1 : k < out.dofs.adr.size)
+    (h2 : out.dofs.adr[k] < out.dofs.inv.size), out.island_dofadr[k] = out.dofs.inv[out.dofs.adr[k]]
+
+theorem island_spec (ntree : Nat) (dofnum : Array Int) (dofTree : List Nat)
+    (rows : List (Option (List Int))) (flexes : List (List (Int × Bool)))
+    (hshape : RowsShape false rows) (hrows : ∀ ts, some ts ∈ rows → RowOk ntree ts) (hne : rows ≠ [])
+    (hflex : ∀ f ∈ flexes, ∀ x ∈ f, x.1 < (ntree : Int))
+    (hdn : dofnum.size = ntree) (hdt : ∀ d ∈ dofTree, d < ntree)
+    (hcount : ∀ t (h : t < dofnum.size), dofnum[t] = (dofTree.count t : Int))
+    (hevery : ∀ t, t < ntree → t ∈ dofTree) :
+    ∃ out, island ntree dofnum dofTree rows flexes = some out ∧ IslandSpec ntree dofTree rows flexes out := by
+  have hok : ∀ m ∈ schedule rows flexes, MergeOk ntree m := by
+    intro m hm
+    rcases List.mem_append.mp hm with h | h
+    · exact rowsPairs_ok hrows m h
+    · exact flexesPairs_ok hflex m h
+  obtain ⟨p, e, hs, hI, hact, hconn⟩ := runMerges_spec ntree _ hok
+  have hu := unionConstraintTrees_eq ntree rows flexes hshape
+  rw [e] at hu
+  simp only [Option.map_some] at hu
+  obtain ⟨a, ea, ho⟩ := dsuAssign_spec (dofnum := dofnum) hI (by omega)
+  rw [hs] at ea ho
+  have f := assign_facts hs hI hact hconn ho
+  -- every row's owner is a constraint of `rows`
+  have hown : ∀ ts ∈ owners [] rows, some ts ∈ rows := by
+    intro ts hts
+    rcases owners_mem hshape [] ts hts with ⟨hb, _⟩ | h
+    · cases hb
+    · exact h
+  have hefc : ∀ x ∈ (owners [] rows).map rowTree, 0 ≤ x ∧ x.toNat < a.island.size ∧
+      Touched ((schedule rows flexes).map edgeOf) x.toNat := by
+    intro x hx
+    obtain ⟨ts, hts, rfl⟩ := List.mem_map.mp hx
+    have hr := hrows ts (hown ts hts)
+    have h1 := hr.rowTree_spec
+    have h2 := hr.1 _ h1.2
+    refine ⟨h1.1, by rw [f.isz]; omega, ?_⟩
+    exact touched_mono (row_edges_sub (hown ts hts)) (hr.touched _ h1.2 h1.1)
+  -- at least one island
+  have hpos : 0 < a.nisland := by
+    match rows, hne, hshape with
+    | some ts :: rest, _, _ =>
+      have hx := hefc (rowTree ts) (by simp [owners])
+      have := f.rng _ hx.2.1 hx.2.2
+      omega
+  -- total view of the island array
+  have hget : ∀ t (h : t < ntree), a.island.getD t 0 = a.island[t]'(by rw [f.isz]; exact h) := by
+    intro t h; simp [Array.getD, f.isz, h]
+  have hkey : ∀ t, t < ntree → a.island.getD t 0 < (a.nisland : Int) ∧
+      (0 ≤ a.island.getD t 0 ↔ par p t ≠ -1) := by
+    intro t ht
+    rw [hget t ht]
+    have hti : t < a.island.size := by rw [f.isz]; exact ht
+    by_cases htt : Touched ((schedule rows flexes).map edgeOf) t
+    · have := f.rng t hti htt
+      exact ⟨this.2, ⟨fun _ => (hact t).mpr htt, fun _ => this.1⟩⟩
+    · have hn := (f.neg t hti).mpr htt
+      rw [hn]
+      refine ⟨by omega, ⟨fun h => by omega, fun h => absurd ((hact t).mp h) htt⟩⟩
+  -- dof islands and their count
+  have hdi : lookupAll a.island (dofTree.map (fun (t : Nat) => (t : Int))) =
+      some (dofTree.map (fun t => a.island.getD t 0)) := by
+    rw [lookupAll_eq]
+    · simp [List.map_map, Function.comp_def]
+    · intro i hi
+      obtain ⟨d, hd, rfl⟩ := List.mem_map.mp hi
+      have := hdt d hd
+      simp only [Int.toNat_natCast]
+      exact ⟨by omega, by rw [f.isz]; exact this⟩
+  have hnidof : a.nidof = (nConstrained (dofTree.map (fun t => a.island.getD t 0)) : Int) := by
+    rw [ho.ndof, activeDofs_eq_sumTo]
+    rw [sumTo_congr (g' := fun t => if (decide (par p t ≠ -1)) then (dofTree.count t : Int) else 0)]
+    · rw [count_sum _ _ _ hdt]
+      unfold nConstrained
+      rw [List.countP_map]
+      congr 1
+      apply List.countP_congr
+      intro d hd
+      have := (hkey d (hdt d hd)).2
+      simp only [Function.comp_apply, decide_eq_true_eq]
+      exact this.symm
+    · intro t ht
+      have hd : dofnum.getD t 0 = (dofTree.count t : Int) := by
+        have h' : t < dofnum.size := by omega
+        rw [← hcount t h']; simp [Array.getD, h']
+      by_cases hp : par p t = -1
+      · simp [hp]
+      · simp [hp, hd]
+  have hc : ¬ (a.nisland = 0 ∨ a.nidof < 0) := by rw [hnidof]; omega
+  -- tree maps
+  have htk : ∀ k ∈ a.island.toList, k < (a.nisland : Int) ∧ (true = false → 0 ≤ k) := by
+    intro k hk
+    obtain ⟨t, ht, rfl⟩ := List.mem_iff_getElem.mp hk
+    simp only [Array.length_toList, f.isz] at ht
+    simp only [Array.getElem_toList]
+    rw [← hget t ht]
+    exact ⟨(hkey t ht).1, by simp⟩
+  obtain ⟨trees, et, st⟩ := buildMaps_spec true a.island.toList a.nisland none hpos htk (by simp)
+  -- dof maps
+  have hdk : ∀ k ∈ dofTree.map (fun t => a.island.getD t 0), k < (a.nisland : Int) ∧ (true = false → 0 ≤ k) := by
+    intro k hk
+    obtain ⟨d, hd, rfl⟩ := List.mem_map.mp hk
+    exact ⟨(hkey d (hdt d hd)).1, by simp⟩
+  obtain ⟨dofs, ed, sd⟩ := buildMaps_spec true (dofTree.map (fun t => a.island.getD t 0)) a.nisland
+    (some a.nidof.toNat) hpos hdk (by intro b hb; cases hb; rw [hnidof]; simp)
+  -- island_dofadr: every island has a dof, so the read of map_idof2dof is inside the array
+  have hadr : ∀ x ∈ dofs.adr.toList, x < dofs.inv.size := by
+    intro x hx
+    obtain ⟨k, hk, rfl⟩ := List.mem_iff_getElem.mp hx
+    simp only [Array.length_toList] at hk
+    simp only [Array.getElem_toList]
+    have hk' : k < a.nisland := by rw [← sd.adr_size]; exact hk
+    obtain ⟨t, ht, htk'⟩ := f.surj k hk'
+    rw [f.isz] at ht
+    obtain ⟨i, hi, hit⟩ := List.mem_iff_getElem.mp (hevery t ht)
+    have hi' : i < (dofTree.map (fun t => a.island.getD t 0)).length := by simpa using hi
+    have hkeyi : (dofTree.map (fun t => a.island.getD t 0))[i] = (k : Int) := by
+      simp only [List.getElem_map, hit]; rw [hget t ht]; exact htk'
+    have hfi : i < dofs.fwd.size := by rw [sd.fwd_size]; exact hi'
+    have hb := sd.block i hi' k hkeyi hk (by rw [sd.cnt_size]; exact hk') hfi
+    obtain ⟨h', _⟩ := sd.inv_fwd i hfi
+    omega
+  have eda := mapM_getElem?_eq dofs.inv dofs.adr.toList hadr
+  -- efc islands
+  have hei : lookupAll a.island ((owners [] rows).map rowTree).toArray.toList =
+      some (((owners [] rows).map rowTree).map (fun i => a.island.getD i.toNat 0)) := by
+    rw [lookupAll_eq]
+    intro i hi
+    have := hefc i (by simpa using hi)
+    exact ⟨this.1, this.2.1⟩
+  have hek : ∀ k ∈ ((owners [] rows).map rowTree).map (fun i => a.island.getD i.toNat 0),
+      k < (a.nisland : Int) ∧ (false = false → 0 ≤ k) := by
+    intro k hk
+    obtain ⟨x, hx, rfl⟩ := List.mem_map.mp hk
+    have h3 := hefc x hx
+    have hlt : x.toNat < ntree := by rw [← f.isz]; exact h3.2.1
+    have h4 := hkey x.toNat hlt
+    exact ⟨h4.1, fun _ => h4.2.mpr ((hact _).mpr h3.2.2)⟩
+  obtain ⟨efcs, ee, se⟩ := buildMaps_spec false _ a.nisland none hpos hek (by simp)
+  -- run the model
+  refine ⟨{ nisland := a.nisland, nidof := a.nidof.toNat, tree_island := a.island, parent := a.parent,
+             efc_tree := ((owners [] rows).map rowTree).toArray, trees := trees,
+             dof_island := (dofTree.map (fun t => a.island.getD t 0)).toArray, dofs := dofs,
+             island_dofadr := (dofs.adr.toList.map (fun i => dofs.inv.getD i 0)).toArray,
+             efc_island := (((owners [] rows).map rowTree).map (fun i => a.island.getD i.toNat 0)).toArray,
+             efcs := efcs }, ?_, ?_⟩
+  · unfold island
+    rw [hu]
+    simp only [ea, hc, ↓reduceIte, et, hdi, ed, eda, hei, ee]
+  · refine ⟨⟨f.isz, f.psz, f.neg, f.rng, f.eq_iff, f.lt_iff, f.surj, f.compressed⟩, hpos, by simp, ?_, ?_,
+      by simp [owners_length], ?_, st, by simpa using sd, by simpa using se, by simp [sd.adr_size], ?_⟩
+    · intro d h h' h''
+      simp only [List.getElem_toArray, List.getElem_map]
+      rw [hget _ (by rw [← f.isz]; exact h'')]
+    · have := hnidof
+      dsimp only
+      omega
+    · intro i h ts hts t ht h0
+      have hmem : ts ∈ owners [] rows := List.mem_of_getElem? hts
+      have hr := hrows ts (hown ts hmem)
+      have h1 := hr.rowTree_spec
+      have hx := hefc (rowTree ts) (List.mem_map.mpr ⟨ts, hmem, rfl⟩)
+      have htn : t.toNat < ntree := by have := (hr.1 t ht).2; omega
+      have hti : t.toNat < a.island.size := by rw [f.isz]; exact htn
+      refine ⟨hti, ?_⟩
+      have hi : i < (owners [] rows).length := by
+        have := h; simp only [List.size_toArray, List.length_map] at this; exact this
+      have hts' : (owners [] rows)[i] = ts := by
+        rw [List.getElem?_eq_getElem hi] at hts; exact Option.some.inj hts
+      have hval : (((owners [] rows).map rowTree).map (fun i => a.island.getD i.toNat 0)).toArray[i]'h =
+          a.island[(rowTree ts).toNat]'hx.2.1 := by
+        simp only [List.getElem_toArray, List.getElem_map, hts']
+        rw [hget _ (by rw [← f.isz]; exact hx.2.1)]
+      simp only [] at hval ⊢
+      rw [hval]
+      have hconn' : Conn ((schedule rows flexes).map edgeOf) (rowTree ts).toNat t.toNat :=
+        (hr.conn _ h1.2 t ht h1.1 h0).mono (row_edges_sub (hown ts hmem))
+      have htt : Touched ((schedule rows flexes).map edgeOf) t.toNat :=
+        touched_mono (row_edges_sub (hown ts hmem)) (hr.touched t ht h0)
+      exact ⟨(f.eq_iff _ _ hx.2.1 hti hx.2.2 htt).mpr hconn', (f.rng _ hx.2.1 hx.2.2).1⟩
+    · intro k h h1 h2
+      simp only [List.getElem_toArray, List.getElem_map, Array.getElem_toList]
+      simp [Array.getD, h2]
+
 end MjProof.Island
